@@ -1,6 +1,7 @@
 package drv
 
 import (
+	"bytes"
 	"encoding/json"
 	"fmt"
 	"math/rand"
@@ -282,4 +283,91 @@ func TestMachineReplay(t *testing.T) {
 	for _, v := range res.Violations {
 		fmt.Printf("REPRODUCED property=%s %s\n", v.Property, strings.ReplaceAll(v.What, "\n", " "))
 	}
+}
+
+// TestMachineClone reaches every state of the Machine.tla graph on a real
+// machine, clones it (C19), checks equality and absence of shared memory, and
+// then applies every state-changing edge to one side while the other side must
+// keep its projection.
+func TestMachineClone(t *testing.T) {
+	dot := os.Getenv("VERIF_DOT")
+	if dot == "" {
+		t.Skip("VERIF_DOT not set")
+	}
+	n, me := EnvInt("VERIF_N", 2), EnvInt("VERIF_ME", 0)
+	res := NewResult(fmt.Sprintf("machineclone-N%d-Me%d", n, me))
+	defer func() {
+		if err := res.Write(); err != nil {
+			t.Fatal(err)
+		}
+	}()
+	g, err := tla.LoadDot(dot)
+	if err != nil {
+		t.Fatal(err)
+	}
+	env := NewMachineEnv(n, me, Seed())
+	cands := candsOf(g)
+	for _, c := range cands {
+		env.State(c)
+	}
+	Parallel(len(g.Nodes), EnvInt("VERIF_WORKERS", 16), func(i int) {
+		nd := g.Nodes[i]
+		path := g.PathTo(nd)
+		rp := func(extra ...*tla.Edge) any {
+			return machineReplay{Driver: "machineclone", N: n, Me: me, Steps: tla.Steps(append(append([]*tla.Edge{}, path...), extra...))}
+		}
+		build := func() *MachineRun {
+			r := env.NewRun(cands)
+			for _, e := range path {
+				r.Exec(e.Act, e.Src.State)
+			}
+			return r
+		}
+		r := build()
+		cl := &MachineRun{E: env, M: r.M.Clone(), Cands: cands, Adopted: r.Adopted}
+		res.Add("machine_states_cloned", 1)
+		so, _ := r.Project()
+		sc, _ := cl.Project()
+		sig := "Machine|" + so["phase"].(string)
+		if stateCore(so) != stateCore(sc) || cl.M.Idx() != r.M.Idx() || cl.M.ID() != r.M.ID() {
+			res.Violate("C19", "monitor", "StateMachine|notequal", fmt.Sprintf("clone of a machine in %s is %s", stateCore(so), stateCore(sc)), rp())
+			return
+		}
+		if !bytes.Equal(txBytes(r.M.StagingTX()), txBytes(cl.M.StagingTX())) || !bytes.Equal(txBytes(r.M.CurrentTX()), txBytes(cl.M.CurrentTX())) {
+			res.Violate("C19", "monitor", "StateMachine|notequal-bytes", "clone's transactions encode differently ("+sig+")", rp())
+			return
+		}
+		if sh := SharedMemory(r.M, cl.M); len(sh) > 0 {
+			res.Violate("C19", "monitor", "StateMachine|shared", fmt.Sprintf("machine clone in phase %s shares mutable memory with its original: %s", so["phase"], strings.Join(sh, "; ")), rp())
+			return
+		}
+		// operations on one side are not observable through the other
+		for _, e := range nd.Out {
+			if e.Dst == nd {
+				continue
+			}
+			for side := 0; side < 2; side++ {
+				a, b := build(), (*MachineRun)(nil)
+				b = &MachineRun{E: env, M: a.M.Clone(), Cands: cands, Adopted: a.Adopted}
+				if side == 1 {
+					a, b = b, a
+				}
+				before := [2][]byte{txBytes(b.M.StagingTX()), txBytes(b.M.CurrentTX())}
+				pb := b.M.Phase()
+				a.Exec(e.Act, e.Src.State)
+				res.Add("machine_clone_steps", 1)
+				after := [2][]byte{txBytes(b.M.StagingTX()), txBytes(b.M.CurrentTX())}
+				if pb != b.M.Phase() || !bytes.Equal(before[0], after[0]) || !bytes.Equal(before[1], after[1]) {
+					res.Violate("C19", "monitor", "StateMachine|observable|"+baseName(e.Act.Name),
+						fmt.Sprintf("%s applied to the %s changed the other machine", e.Act.Label, []string{"original", "clone"}[side]), rp(e))
+				}
+				st, _ := a.Project()
+				if stateCore(st) != stateCore(e.Dst.State) {
+					res.Violate("C19", "monitor", "StateMachine|behaves-differently|"+baseName(e.Act.Name),
+						fmt.Sprintf("%s applied to the %s led to %s, not %s", e.Act.Label, []string{"original", "clone"}[side], stateCore(st), stateCore(e.Dst.State)), rp(e))
+				}
+			}
+		}
+	})
+	res.Sample(map[string]any{"kind": "machine-clone", "N": n, "Me": me, "states": len(g.Nodes)})
 }
